@@ -230,7 +230,20 @@ class ClientRun:
         self.inject("env", {"e": "chunk", "ks": [m["k"] for m in ms]}, fn)
 
     def ev_eof(self):
-        self.inject("env", {"e": "eof"}, self.w.eof)
+        """The peer closes the socket: the connection that owns the transport is closed in this very callback."""
+        args = {"e": "eof", "i": 0}
+
+        def fn():
+            tr = self.w.tr
+            if tr is None or not tr.can_receive():
+                return False
+            for i, c in enumerate(self.conns):
+                fh = c._frame_helper
+                if fh is not None and getattr(fh, "_transport", None) is tr:
+                    args["i"] = i + 1
+            return self.w.eof()
+
+        self.inject("EnvLoss", args, fn)
 
     def ev_reset(self):
         self.inject("env", {"e": "reset"}, self.w.reset)
